@@ -398,11 +398,17 @@ def run(rep):
                 rep.check(rr is not None and ('@' + variant) in rr[1], 'C17.5.variant', f'variant-{label}:{hn}', H.where(bb),
                           f'{cname(t)} is applied to {rr}, not to the error held by variant {variant}', ok_detail=f'receiver is the payload of {variant}')
                 rep.check(bool(guards(H, bb)), 'C17.5.variant', f'variant-guard-{label}:{hn}', H.where(bb), 'call not under the match on self', ok_detail='inside the match on self')
-        sites = panic_sites(H)
-        for bb, why, what in sites:
-            rep.bad('C17.5.no-panic', f'panic:{hn}:{what}', H.where(bb), f'{what} in diagnostic helper {hn}: {why}')
-        if not sites:
-            rep.ok('C17.5.no-panic', f'panic-free:{hn}', H.where(), 'no panic-capable callee')
+        # the helper itself, its closures, and every crate function it reaches (a private `line_and_column(source, offset)` helper that
+        # indexes a line table belongs to the rendering just as much)
+        family = sorted(mir.reachable_fns([hn]) | {n_ for n_, b_ in mir.bodies.items() if b_.kind == 'Closure' and (b_.parent == hn or b_.parent in mir.reachable_fns([hn]))})
+        n_sites = 0
+        for fn_ in family:
+            FB = mir.bodies[fn_]
+            for bb, why, what in panic_sites(FB):
+                n_sites += 1
+                rep.bad('C17.5.no-panic', f'panic:{hn}:{what}' if fn_ == hn else f'panic:{hn}:{fn_}:{what}', FB.where(bb), f'{what} in diagnostic helper {hn}' + ('' if fn_ == hn else f' (through {fn_})') + f': {why}')
+        if not n_sites:
+            rep.ok('C17.5.no-panic', f'panic-free:{hn}', H.where(), f'no panic-capable callee in {len(family)} function(s) / closure(s) of the helper')
 
 
 def is_drop_flag_switch(T, b):
